@@ -556,8 +556,12 @@ func genHistoryHooked(rng *RNG, w *hWorld, nOps int, allowRebuild bool, hook fun
 			}
 		case nTok > 0:
 			f := pg.fact()
-			if rng.Chance(50) {
+			switch rng.Intn(4) {
+			case 0, 1:
 				f = SPred{Name: "fresh" + fmt.Sprint(rng.Intn(5)), Terms: []STerm{aStr("new string " + fmt.Sprint(rng.Intn(9)))}}
+			case 2:
+				// a predicate the token knows, with a string the token has never seen INSIDE A SET
+				f = SPred{Name: f.Name, Terms: []STerm{aSet(aStr("read"), aStr("unseen in set "+fmt.Sprint(rng.Intn(9))))}}
 			}
 			emit(hOp{Kind: "getblockid", I: rng.Intn(nTok), Fact: f})
 		}
